@@ -3,6 +3,7 @@ package inputs
 import (
 	"bytes"
 	"context"
+	"encoding/binary"
 	"encoding/hex"
 	"fmt"
 	"os"
@@ -14,6 +15,7 @@ import (
 	"sync/atomic"
 	"time"
 
+	"github.com/0chain/common/core/encryption"
 	"github.com/0chain/common/core/logging"
 	"github.com/0chain/common/core/statecache"
 	"github.com/0chain/common/core/util"
@@ -365,6 +367,88 @@ func structuralTries(nodes [][]byte) [][]byte {
 }
 
 // panicSite extracts the frames of the code under test from the current stack (called in recover).
+// scaledInputs: well-formed but LARGE inputs (sizes no real trie produces, any peer can send): deep chains
+// of one-nibble shared-prefix nodes with true hashes and with a wrong hash at the bottom, a flat export of
+// many entries, long fields. Decoding work must stay proportional to the input (the watchdog bounds it).
+func scaledInputs(thorough bool) map[string][][]byte {
+	out := map[string][][]byte{}
+	chain := func(depth int, consistent bool) []byte {
+		const weight = 7
+		value := []byte("v")
+		m := binary.BigEndian.AppendUint64(nil, weight)
+		m = append(m, value...)
+		childHash := encryption.RawHash(m)
+		if !consistent {
+			childHash = encryption.RawHash([]byte("not the value's hash"))
+		}
+		vb, err := cbor.Marshal(&wmpt.PersistNodeBase{Value: &wmpt.PersistNodeValue{Value: value, Hash: childHash, Weight: weight}})
+		if err != nil {
+			panic(err)
+		}
+		pairs := make([]*wmpt.PersistTriePair, depth+1)
+		pairs[depth] = &wmpt.PersistTriePair{Value: vb}
+		key := []byte{1}
+		for i := depth - 1; i >= 0; i-- {
+			hw := make([]byte, 40)
+			copy(hw, childHash)
+			binary.BigEndian.PutUint64(hw[32:], weight)
+			hash := encryption.RawHash(append(append([]byte{}, key...), childHash...))
+			b, err := cbor.Marshal(&wmpt.PersistNodeBase{Short: &wmpt.PersistNodeShort{Key: key, Hash: hash, Value: hw}})
+			if err != nil {
+				panic(err)
+			}
+			pairs[i] = &wmpt.PersistTriePair{Value: b}
+			childHash = hash
+		}
+		data, err := cbor.Marshal(&wmpt.PersistTrie{Pairs: pairs})
+		if err != nil {
+			panic(err)
+		}
+		return data
+	}
+	depths := []int{64, 1000, 20000}
+	if thorough {
+		depths = append(depths, 100000)
+	}
+	for _, d := range depths {
+		for _, ok := range []bool{true, false} {
+			e := chain(d, ok)
+			out["WeightedMerkleTrie.Deserialize"] = append(out["WeightedMerkleTrie.Deserialize"], e)
+			out["WeightedMerkleTrie.VerifyBlockProof"] = append(out["WeightedMerkleTrie.VerifyBlockProof"], e)
+		}
+	}
+	// a flat export: the same small value node many times
+	{
+		vb, _ := cbor.Marshal(&wmpt.PersistNodeBase{Value: &wmpt.PersistNodeValue{Value: []byte("v"), Hash: encryption.RawHash([]byte("x")), Weight: 1}})
+		for _, n := range []int{1000, 200000} {
+			pairs := make([]*wmpt.PersistTriePair, n)
+			for i := range pairs {
+				pairs[i] = &wmpt.PersistTriePair{Value: vb}
+			}
+			data, _ := cbor.Marshal(&wmpt.PersistTrie{Pairs: pairs})
+			out["WeightedMerkleTrie.Deserialize"] = append(out["WeightedMerkleTrie.Deserialize"], data)
+			out["WeightedMerkleTrie.VerifyBlockProof"] = append(out["WeightedMerkleTrie.VerifyBlockProof"], data)
+		}
+	}
+	// long fields in single nodes
+	for _, n := range []int{1 << 16, 1 << 20} {
+		long := bytes.Repeat([]byte{3}, n)
+		if b, err := cbor.Marshal(&wmpt.PersistNodeBase{Short: &wmpt.PersistNodeShort{Key: long, Hash: encryption.RawHash(long), Value: make([]byte, 40)}}); err == nil {
+			out["wmpt.DeserializeNode"] = append(out["wmpt.DeserializeNode"], b)
+		}
+		if b, err := cbor.Marshal(&wmpt.PersistNodeBase{Value: &wmpt.PersistNodeValue{Value: long, Hash: encryption.RawHash(long), Weight: 1}}); err == nil {
+			out["wmpt.DeserializeNode"] = append(out["wmpt.DeserializeNode"], b)
+		}
+		// state-trie nodes: a leaf / branch / extension type byte followed by n separator or filler bytes
+		for _, tb := range []byte{1, 2, 3, 4} {
+			for _, fill := range []byte{':', 'a', 0} {
+				out["util.CreateNode"] = append(out["util.CreateNode"], append([]byte{tb}, bytes.Repeat([]byte{fill}, n)...))
+			}
+		}
+	}
+	return out
+}
+
 func panicSite() string {
 	var out []string
 	lines := strings.Split(string(debug.Stack()), "\n")
@@ -514,6 +598,7 @@ func C15(tier rt.Tier) int {
 	corp := corpus()
 	structNodes := structuralNodes()
 	structTries := structuralTries(structNodes)
+	scaled := scaledInputs(thorough)
 	rep.Set("structural_node_encodings", len(structNodes))
 	rep.Set("structural_trie_encodings", len(structTries))
 	// current input per worker, for the hang watchdog
@@ -556,7 +641,11 @@ func C15(tier rt.Tier) int {
 			for batch := range jobs {
 				for _, j := range batch {
 					func() {
-						current[w].Store(j.t.name + " " + hex.EncodeToString(j.b))
+						if len(j.b) > 4096 {
+							current[w].Store(fmt.Sprintf("%s on a %d-byte input beginning %x", j.t.name, len(j.b), j.b[:64]))
+						} else {
+							current[w].Store(j.t.name + " " + hex.EncodeToString(j.b))
+						}
 						atomic.StoreInt64(&stamp[w], time.Now().Unix())
 						defer func() {
 							atomic.StoreInt64(&stamp[w], 0)
@@ -644,6 +733,11 @@ func C15(tier rt.Tier) int {
 				count++
 			}
 		}
+		// (e) large well-formed inputs
+		for _, b := range scaled[t.name] {
+			emit(b)
+			count++
+		}
 		emit(nil)
 		st.perTgt[t.name] = count
 	}
@@ -662,7 +756,7 @@ func C15(tier rt.Tier) int {
 	rep.Set("accepted_inputs", int(st.accepted))
 	rep.Set("inputs_per_decoder", st.perTgt)
 	rep.Set("corpus_encodings", csize)
-	rep.Set("rule", fmt.Sprintf("for each of the four decoders: ALL byte strings of length <= %d, plus for every real encoding of the corpus (state-trie nodes of every kind, weighted-trie nodes incl. branches with embedded short children, path exports, block proofs; each decoder also sees the other formats): every truncation, every single-byte deletion, every byte value at each of the first 24 (thorough 64) positions and {00,3a,7f,80,ff} (+ every bit flip in thorough) elsewhere, separator duplication, every CBOR head rewritten to every length form incl. 4/8-byte lengths near 2^31/2^63 and indefinite, every splice head(A)+tail(B) at separator/head boundaries; plus a structure-aware enumeration for the CBOR formats: well-formed nodes whose fields take every boundary length (child entries of 0..100 bytes, 0..32 children, short-node key/value/hash lengths, several kinds at once), alone and as first/second element of exports and proofs; and CBOR type confusion: every data item of every corpus encoding, also inside embedded proof/export elements, replaced by null, 0, true, a huge integer, empty byte/text string, empty array, empty map, [null]; oracle: returns value or error without panic within 120 s, anything accepted is re-encoded/hashed/copied without panic; 'states' = corpus encodings; inputs are counted, not deduplicated", maxLen))
+	rep.Set("rule", fmt.Sprintf("for each of the four decoders: ALL byte strings of length <= %d, plus for every real encoding of the corpus (state-trie nodes of every kind, weighted-trie nodes incl. branches with embedded short children, path exports, block proofs; each decoder also sees the other formats): every truncation, every single-byte deletion, every byte value at each of the first 24 (thorough 64) positions and {00,3a,7f,80,ff} (+ every bit flip in thorough) elsewhere, separator duplication, every CBOR head rewritten to every length form incl. 4/8-byte lengths near 2^31/2^63 and indefinite, every splice head(A)+tail(B) at separator/head boundaries; plus a structure-aware enumeration for the CBOR formats: well-formed nodes whose fields take every boundary length (child entries of 0..100 bytes, 0..32 children, short-node key/value/hash lengths, several kinds at once), alone and as first/second element of exports and proofs; and CBOR type confusion: every data item of every corpus encoding, also inside embedded proof/export elements, replaced by null, 0, true, a huge integer, empty byte/text string, empty array, empty map, [null]; plus large well-formed inputs: path exports that are chains of 64/1000/20000 (thorough 100000) one-nibble shared-prefix nodes with true hashes and with a wrong bottom hash, flat exports of 1000/200000 entries, nodes with 2^16/2^20-byte fields, state-trie type bytes followed by 2^16/2^20 separator/filler bytes; oracle: returns value or error without panic within 120 s, anything accepted is re-encoded/hashed/copied without panic; 'states' = corpus encodings; inputs are counted, not deduplicated", maxLen))
 	rep.Sample(map[string]any{"decoder": "util.CreateNode", "input_hex": "02"})
 	if c := corp["wmpt.DeserializeNode"]; len(c) > 0 {
 		rep.Sample(map[string]any{"decoder": "wmpt.DeserializeNode", "corpus_encoding_hex": hex.EncodeToString(c[0])})
